@@ -165,6 +165,10 @@ func c10CoreBody(rc *RunCtx) {
 			case 2:
 				x.RootWrite("sys/rotate", nil)
 			}
+			// what the live node writes after the failed operation (and its
+			// follow-up) must be readable after the restart too
+			lateKey, lateVal := fmt.Sprintf("secret/after-fault-%d", k), fmt.Sprintf("late-%d", k)
+			_, lateErr := x.RootWrite(lateKey, map[string]any{"v": lateVal})
 			x.Shutdown()
 			y0 := x0
 			y0.Keys, y0.Opts.Thresh = curKeys, curThr
@@ -174,6 +178,13 @@ func c10CoreBody(rc *RunCtx) {
 				return false
 			}
 			ok := readAll(y, sig, fmt.Sprintf("after a storage error at write %d of %d inside %s, then %s", k, writes, op, sig["then"]))
+			if ok && lateErr == nil {
+				if r, err := y.Do("verify", Req{Op: logical.ReadOperation, Path: lateKey, Token: y.Root}); err != nil || r == nil || r.Data["v"] != lateVal {
+					sig["written_after_the_failed_operation"] = true
+					viol("entry-lost-after-crash", sig, "%s hit a storage error at its write %d of %d (reported: %v), then %s; an entry written on the live node after that does not read back after the restart: %v %v", op, k, writes, operr, sig["then"], r, err)
+					ok = false
+				}
+			}
 			y.Shutdown()
 			if !ok {
 				return false
@@ -204,6 +215,10 @@ func c10CoreBody(rc *RunCtx) {
 			}
 			return res.SecretShares, t2, nil
 		}
+	}
+	doRotate := func(x *CoreH, keys [][]byte, thr int) ([][]byte, int, error) {
+		_, err := x.RootWrite("sys/rotate", nil)
+		return nil, 0, err
 	}
 	doRotateRoot := func(x *CoreH, keys [][]byte, thr int) ([][]byte, int, error) {
 		_, err := x.RootWrite("sys/rotate/root", nil)
@@ -361,6 +376,9 @@ func c10CoreBody(rc *RunCtx) {
 				return
 			}
 			if !crashCheck("rotate", from, h.Keys, t, nil, 0) {
+				return
+			}
+			if !faultCheck("rotate", from, disk.LogLen()-from, h.Keys, t, doRotate) {
 				return
 			}
 			write(100 + i)
